@@ -143,29 +143,35 @@ def getattr_(interp, v, attr, node=None):
     if isinstance(v, ModuleV):
         from . import npmodel
         return npmodel.module_attr(interp, v, attr, node)
-    if isinstance(v, (str, SegStr)):
-        if attr in STR_METHODS:
+    if isinstance(v, (str, SegStr, NameV)):
+        if attr in STR_IMPL:
             return BoundV(v, BuiltinV('str.' + attr, STR_IMPL[attr]))
-        raise Raised('AttributeError', ln, f"'str' object has no attribute '{attr}'", implicit=True)
-    if isinstance(v, NameV):
-        if attr in STR_METHODS:
-            return BoundV(v, BuiltinV('str.' + attr, STR_IMPL[attr]))
+        if hasattr(str, attr):
+            return BoundV(v, BuiltinV('str.' + attr, _s_simple(attr)))
         raise Raised('AttributeError', ln, f"'str' object has no attribute '{attr}'", implicit=True)
     if isinstance(v, list):
         if attr in LIST_METHODS:
             return BoundV(v, BuiltinV('list.' + attr, LIST_IMPL[attr]))
+        if hasattr(list, attr):
+            raise Unsupported(f"list.{attr}")
         raise Raised('AttributeError', ln, f"'list' object has no attribute '{attr}'", implicit=True)
     if isinstance(v, dict):
         if attr in DICT_METHODS:
             return BoundV(v, BuiltinV('dict.' + attr, DICT_IMPL[attr]))
+        if hasattr(dict, attr):
+            raise Unsupported(f"dict.{attr}")
         raise Raised('AttributeError', ln, f"'dict' object has no attribute '{attr}'", implicit=True)
     if isinstance(v, SetV):
         if attr in SET_METHODS:
             return BoundV(v, BuiltinV('set.' + attr, SET_IMPL[attr]))
+        if hasattr(set, attr):
+            raise Unsupported(f"set.{attr}")
         raise Raised('AttributeError', ln, f"'set' object has no attribute '{attr}'", implicit=True)
     if isinstance(v, tuple):
         if attr in ('index', 'count'):
             return BoundV(list(v), BuiltinV('list.' + attr, LIST_IMPL[attr]))
+        if hasattr(tuple, attr):
+            raise Unsupported(f"tuple.{attr}")
         raise Raised('AttributeError', ln, f"'tuple' object has no attribute '{attr}'", implicit=True)
     if isinstance(v, SliceV):
         if attr in ('start', 'stop', 'step'):
@@ -1112,6 +1118,13 @@ def _s_count(interp, args, kwargs, node):
         raise Unsupported("count on an opaque name")
     if isinstance(s, str) and isinstance(sub, str):
         return s.count(sub)
+    if isinstance(s, SegStr) and isinstance(sub, str) and any(
+            isinstance(p, Hole) and not S.hole_excludes(p, sub) for p in s.parts):
+        # unconstrained text: the count is at least what the concrete pieces contribute (sound over-approximation)
+        c = sum(p.count(sub) for p in s.parts if isinstance(p, str))
+        n = fresh('count', IS)
+        interp.assume(n >= c)
+        return n
     return S.seg_count(s, sub)
 
 
@@ -1186,19 +1199,37 @@ def _s_splitlines(interp, args, kwargs, node):
 def _s_simple(name):
     def f(interp, args, kwargs, node):
         s = args[0]
-        if isinstance(s, str) and all(not is_sym(a) for a in args[1:]):
+        if isinstance(s, str) and all(_plain(a) for a in args[1:]) and not kwargs:
             try:
-                return getattr(s, name)(*args[1:])
+                r = getattr(s, name)(*args[1:])
             except ValueError:
                 raise Raised('ValueError', getattr(node, 'lineno', None), name, implicit=True)
+            except TypeError:
+                raise Raised('TypeError', getattr(node, 'lineno', None), name, implicit=True)
+            if isinstance(r, float):
+                r = lit(r)
+            return r
+        if name in ('partition', 'rpartition') and isinstance(s, SegStr) and len(s.parts) == 1 \
+                and isinstance(s.parts[0], StrHole) and isinstance(args[1], str):
+            return _partition_sym(interp, s.parts[0], args[1], name == 'rpartition')
         raise Unsupported(f"str.{name} on symbolic text")
     return f
 
 
+def _partition_sym(interp, hole, sep, right):
+    t = hole.term
+    sv = z3.StringVal(sep)
+    if interp.decide(z3.Contains(t, sv), f"{sep!r} in {t}"):
+        idx = z3.LastIndexOf(t, sv) if right else z3.IndexOf(t, sv, 0)
+        before = z3.SubString(t, 0, idx)
+        after = z3.SubString(t, idx + len(sep), z3.Length(t) - idx - len(sep))
+        return (SegStr([StrHole(before, hole.excluded)]), sep, SegStr([StrHole(after, hole.excluded)]))
+    empty = ''
+    return (empty, empty, SegStr([hole])) if right else (SegStr([hole]), empty, empty)
+
+
 STR_IMPL = {'split': _s_split, 'count': _s_count, 'endswith': _s_endswith, 'startswith': _s_startswith,
             'strip': _s_strip, 'join': _s_join, 'replace': _s_replace, 'splitlines': _s_splitlines}
-for _n in STR_METHODS:
-    STR_IMPL.setdefault(_n, _s_simple(_n))
 
 
 # =============================================================================== list methods
